@@ -23,6 +23,11 @@ def main():
                            select=sel, nshards=2)
     edges += collect_edges(["harness.corpus.nameclash"], a.tier, cap=8 if quick else 32, depth2=0 if quick else 3,
                            select=sel, nshards=2)
+    # control-flow rewrites around configuration-dependent guards (corpus C, cg_* matrix)
+    edges += collect_edges(["harness.corpus.configs"], a.tier, cap=6 if quick else 24,
+                           ops=["fuse", "fission", "lift_scope", "reorder_stmts", "specialize", "eliminate_dead_code", "merge_writes"],
+                           depth2=0 if quick else 2, select=(lambda m, p: p.name().startswith("cg_") and (not a.only or a.only in p.name())),
+                           nshards=2)
     with scratch() as d:
         if not a.only:
             # the repository's own tests, recorded: every derivation step they perform is an edge too
